@@ -97,7 +97,7 @@ async def exchange(case, script):
             if first.get("update"):
                 kw0["update_state"] = True
             import asyncio as _aio
-            with vclock.frozen_epoch("UTC", case["ts"] - 60):
+            with vclock.frozen_epoch("UTC", case["ts"] - first.get("gap", 60)):
                 try:
                     await _aio.wait_for(cl.api.control_breeze_device(remote0, **kw0), 20)
                 except Exception:
@@ -262,8 +262,8 @@ def strat(dense, faults):
                 st.integers(0, 3) if faults else st.none(), gen.device_ids, gen.sessions, gen.timestamps, st.integers(1, 100),
                 st.booleans() if faults else st.just(False)).flatmap(
                     lambda c: st.one_of(st.just(c), st.just(c), st.builds(
-                        lambda cur0, req0, up0: dict(c, first={"cur": cur0, "req": req0, "update": up0}),
-                        cur_states(modes), requests(modes), st.booleans())) if not faults else st.just(c))
+                        lambda cur0, req0, up0, gap: dict(c, first={"cur": cur0, "req": req0, "update": up0, "gap": gap}),
+                        cur_states(modes), requests(modes), st.booleans(), st.sampled_from([0, 0, 1, 60]))) if not faults else st.just(c))
         return specs.flatmap(with_spec)
     return build
 
